@@ -26,6 +26,7 @@ RULE = (
     'operators of every kind: .I raises ValueError. non-trivial = a diagonal with >= 1 zero, a nested block container, '
     'kappa >= 10, or a non-default solver.'
     ' Also: for a third of the SPD cases the same operator object is first inverted under a configuration that cannot solve (1 CG step, no error raised); the inverse under test must use its own configuration.'
+    ' Also (big_spd): a dense SPD operator with 257-320 unknowns: dense form of the lazy inverse == numpy inverse, one solve to the configured tolerance.'
 )
 ASSUMPTIONS = [
     'CG bound calibrated at design time on 294 random SPD systems (largest observed ratios 0.43 and 0.27)',
